@@ -218,6 +218,7 @@ def run_scenario(scn, keep_world=False):
         n_init=w.n_init,
         phases=[c["phase"] for c in w.calls],
         lim_reason=w.lim_reason,
+        result_keys=getattr(w, "result_keys", None),
     )
     if scn.get("want_calls"):
         rec["call_log"] = [dict(k=c["k"], x=c["x"].tolist(), y=c["y"], sd=c["sd"], phase=c["phase"],
@@ -738,9 +739,15 @@ def _c19(w, b, res, valid, level, scn):
             w.violate("C19", "result-fval-not-last", "returned fval differs from the last recorded value (deterministic)")
     # result fields vs problem and final state
     from pybads.bads.optimize_result import OptimizeResult
-    if set(res.keys()) != set(OptimizeResult._keys):
-        w.violate("C19", "result-keys", "OptimizeResult does not expose exactly its documented fields",
-                  extra=sorted(set(res.keys()) ^ set(OptimizeResult._keys)))
+    documented = {"fun", "non_box_cons", "x0", "x", "fval", "fsd", "yval_vec", "ysd_vec", "mesh_size",
+                  "func_count", "iterations", "message", "problem_type", "total_time", "overhead",
+                  "random_seed", "version", "target_type"}
+    keys = set(res.keys())
+    rec_keys = sorted(keys)
+    w.result_keys = rec_keys
+    if not (documented <= keys <= set(OptimizeResult._keys)):
+        w.violate("C19", "result-keys", "OptimizeResult does not expose its documented fields (or exposes undeclared ones)",
+                  missing=sorted(documented - keys), undeclared=sorted(keys - set(OptimizeResult._keys)))
     for k in res.keys():
         try:
             a = getattr(res, k)
